@@ -591,7 +591,7 @@ def check_pred(ctx, tally, g: GT, seed, form, fn, args, kwargs, verdict, theorem
         ctx.count(f"undecided/{name}")
         return
     ctx.case(desc, g.di >= 2 and g.do >= 2, f"{name}/{form}/{g.kind}/{'in=out' if g.di == g.do else 'in!=out'}/{verdict}")
-    prng = case_rng("c06/pred", seed, name, form, g.kind, g.di, g.do, sorted(kwargs))
+    prng = case_rng("c06/pred", seed, name, form, g.kind, g.di, g.do, sorted(kwargs), getattr(g, "gen", None))
     pargs = present_obj(prng, tuple(args))     # same values, another presentation (each array of a list independently)
     guard = Pure(*pargs, **kwargs)
     res = call(fn, *pargs, **kwargs)
